@@ -78,7 +78,7 @@ def exec_one(unit, prefix, expect=None):
 
 COMP = [["ss"], ["as"], ["aas"], ["s", "s"], ["as", "s"], ["as", "as"], ["ss", "a"], ["Ls", "s"], ["e", "s"], ["s", "e"]]
 SHAPES = ["S+S", "W+S", "H", "Sm", "Sm+S", "P", "Pw", "M", "Mw", "K", "N", "C+S", "R", "Pc"]
-FAULTS = ["5xx", "429", "4xx", "token"]
+FAULTS = ["5xx", "429", "4xx", "token", "4xx-tokenmsg", "403"]
 
 
 def label(unit):
@@ -108,8 +108,17 @@ def space(tier):
             units.append(({"producers": prods, "fail_at": 1, "fail_cls": "runtime", "after": "s", "line": True,
                            "timer": False, "horizon": 30.0}, {"thread": 2}, cap))
     else:
-        units.append(({"producers": ["s"], "fail_at": 1, "fail_cls": "runtime", "after": "s", "line": True,
-                       "timer": False, "horizon": 30.0}, {"thread": 1}, cap))
+        for prods in (["s"], ["as"], ["s", "s"]):
+            units.append(({"producers": prods, "fail_at": 1, "fail_cls": "runtime", "after": "s", "line": True,
+                           "timer": False, "horizon": 30.0}, {"thread": 1}, cap))
+    # whole handler, one preemption at any line of threading.py / state.py around the failing call
+    import aws_durable_execution_sdk_python.state as _stm
+    import aws_durable_execution_sdk_python.threading as _thm
+    for sh in ("S", "Sm", "W"):
+        p = P.program((sh,))
+        units.append(({"program": p, "cfg": {"env_kinds": ["fault"], "faults": ["5xx", "4xx"],
+                                             "line_files": [_stm.__file__, _thm.__file__]}},
+                      {"fault": 1, "thread": 1, "total": 2}, cap))
     for sh in SHAPES:
         p = P.program(tuple(sh.split("+")))
         conc = P.is_concurrent(p)
@@ -135,7 +144,7 @@ def run(ctx):
     units = space(ctx.tier)
     cov, viols, internal = common.explore_units(ctx, MOD, units, label=label)
     cov["bounds"] = ("(a) 10 producer configurations x failing API call k in 1..3 x error class, producers keep issuing "
-                     "calls after the failure, all schedules <=2 (quick) / <=3 (thorough) deviations, line mode on state.py; "
+                     "calls after the failure, all schedules <=2 (quick) / <=3 (thorough) deviations, line-level preemption in state.py and threading.py (also on three whole-handler programs); "
                      "(b) 14 program shapes (sequential, child, at-most-once, parallel/map with running, parked and "
                      "timer-resubmitted branches, callbacks, large result) x failing call position = every call x "
                      "{5xx, 429, 4xx, invalid token} x policies rtb/low/high, +1 scheduling/timer deviation")
